@@ -106,3 +106,19 @@ def conformance_with_refine(tree, a=0.0, b=1.0):
     pts = [objs[0].start] + [o.end for o in objs]
     lvs = [objs[0].levels[0]] + [o.levels[1] for o in objs]
     return [float(p) for p in pts] == [float(p) for p in tree[0]] and [int(l) for l in lvs] == list(tree[1])
+
+
+def level_assignments(n_inner):
+    """all valid level labellings of a sorted point set with n inner points: one per binary-search-tree shape (Catalan(n));
+    rebalancing (tree rotation) turns the dyadic labelling into any of them while keeping the points"""
+    @functools.lru_cache(maxsize=None)
+    def rec(n):
+        if n == 0:
+            return ((),)
+        out = []
+        for k in range(n):
+            for l in rec(k):
+                for r in rec(n - 1 - k):
+                    out.append(tuple(x + 1 for x in l) + (1,) + tuple(x + 1 for x in r))
+        return tuple(out)
+    return [[0] + list(t) + [0] for t in rec(n_inner)]
